@@ -239,4 +239,4 @@ QUERIES = [
           bounds=lambda tier: {"name_pool": POOL, "path_length": "1..3 each"},
           outside=["paths longer than 3", "names outside the pool"]),
 ]
-BUDGET = {"quick": 420, "thorough": 3000}
+BUDGET = {"quick": 420, "thorough": 1200}
